@@ -353,8 +353,19 @@ class ParkDeque(deque):
         return deque.__contains__(self, x)
 
     def __iter__(self):
+        # iterating is not one atomic step for the interpreter: a thread walking the queue can be preempted between two
+        # elements, and deque's own iterator then raises RuntimeError if another thread changed the queue meanwhile
         self._s.park("q.read")
-        return deque.__iter__(self)
+        it = deque.__iter__(self)
+        if self._s.who() is None or not self._s.active:
+            return it
+
+        def walk():
+            for x in it:
+                yield x
+                self._s.park("q.iter")
+
+        return walk()
 
     def index(self, *a):
         self._s.park("q.read")
